@@ -141,6 +141,7 @@ CHECKS = {
         level_note="Lines longer than 64 KiB are outside the domain (x/crypto's knownhosts refuses such a file before dtail's rewrite can run). A key revoked in the file for a contacted host is outside the domain.",
         tests=[
             dict(name="TestC17Callback", quick=dict(checks=30, shards=8, timeout=900), thorough=dict(checks=500, shards=10, timeout=3400)),
+            dict(name="TestC17Cancel", quick=dict(checks=12, shards=3, timeout=600), thorough=dict(checks=200, shards=4, timeout=3000)),
             dict(name="TestC17E2E", quick=dict(checks=8, shards=6, timeout=900), thorough=dict(checks=120, shards=6, timeout=3400)),
         ]),
     "C15": dict(
